@@ -45,9 +45,13 @@ def run(chk):
                     for e in r.events("subscript"))
     chk.ob("R-PL-LEN", c + "[via:interp:previous]", "derives through a previous-value (step) interpolation onto the time index",
            "interp:previous" in r.ret.tags or via_left or via_count, derived="tags %s" % sorted(t for t in r.ret.tags if t.startswith(("interp:", "searchsorted:"))),
-           loc=r.fi.loc())
-    chk.ob("R-PL-LEN", c + "[len]", "first dimension is the record's length", r.ret.shape is not None and r.ret.shape[0] == LinExpr("n"),
-           derived="shape %r" % (r.ret.shape,), loc=r.fi.loc(), inconclusive=(r.ret.shape is None and r.ret.indef))
+           loc=r.fi.loc(),
+           # a located rival (another interpolation kind, searchsorted with the other side) refutes; a hold built some other way (np.repeat over
+           # the gaps between peaks, a loop) is not located
+           inconclusive=not any(t.startswith(("interp:", "searchsorted:")) for t in r.ret.tags))
+    _sh = r.ret.shape
+    chk.ob("R-PL-LEN", c + "[len]", "first dimension is the record's length", _sh is not None and _sh[0] == LinExpr("n"),
+           derived="shape %r" % (_sh,), loc=r.fi.loc(), inconclusive=(_sh is None and r.ret.indef) or (_sh is not None and _sh[0] is None))
     # the step function's nodes (this design: np.insert + interp1d): a zero count at index 0 in front, the final count repeated at index
     # len(values) behind -- so the count is 0 before the first peak and holds its last value to the end of the record
     inserts = [n for n in ast.walk(r.fi.node) if isinstance(n, ast.Assign) and len(n.targets) == 1 and isinstance(n.targets[0], ast.Name) and
